@@ -74,19 +74,19 @@ class FsMixin:
 
     # ---- queries
     def m_Path_is_file(self, st, recv, a, kw, lineno):
-        return R(st, V(BoolV(self.fs_is_file(st, Val.p(recv.t))), "bool"))
+        return R(st, V(BoolV(self.fs_is_file(st, vp(recv.t))), "bool"))
 
     def m_Path_is_dir(self, st, recv, a, kw, lineno):
-        return R(st, V(BoolV(self.fs_is_dir(st, Val.p(recv.t))), "bool"))
+        return R(st, V(BoolV(self.fs_is_dir(st, vp(recv.t))), "bool"))
 
     def m_Path_exists(self, st, recv, a, kw, lineno):
-        return R(st, V(BoolV(self.fs_exists(st, Val.p(recv.t))), "bool"))
+        return R(st, V(BoolV(self.fs_exists(st, vp(recv.t))), "bool"))
 
     def m_Path_is_symlink(self, st, recv, a, kw, lineno):
-        return R(st, V(BoolV(self.fk(st, Val.p(recv.t)) == LINK), "bool"))
+        return R(st, V(BoolV(self.fk(st, vp(recv.t)) == LINK), "bool"))
 
     def m_Path_read_text(self, st, recv, a, kw, lineno):
-        p = Val.p(recv.t)
+        p = vp(recv.t)
         q = z3.If(self.fk(st, p) == LINK, self.ftarget(st, p), p)
         return self.split(st, self.fs_is_file(st, p),
                           lambda s: R(s, V(StrV(z3.Select(s.field("$fs_text"), q)), "str")),
@@ -94,7 +94,7 @@ class FsMixin:
 
     # ---- updates
     def m_Path_unlink(self, st, recv, a, kw, lineno):
-        p = Val.p(recv.t)
+        p = vp(recv.t)
         k = self.fk(st, p)
 
         def yes(s):
@@ -104,7 +104,7 @@ class FsMixin:
         return self.split(st, z3.Or(k == FILE, k == LINK), yes, lambda s: [Res(s, None, "raise", "FileNotFoundError")])
 
     def m_Path_touch(self, st, recv, a, kw, lineno):
-        p = Val.p(recv.t)
+        p = vp(recv.t)
         k = self.fk(st, p)
         self.fs_effect(st, "touch", [recv], lineno)
         empty = z3.StringVal("")
@@ -112,15 +112,15 @@ class FsMixin:
         return R(st)
 
     def m_Path_write_text(self, st, recv, a, kw, lineno):
-        p = Val.p(recv.t)
+        p = vp(recv.t)
         self.fs_effect(st, "write_text", [recv, a[0]], lineno)
         k = self.fk(st, p)
         q = z3.If(k == LINK, self.ftarget(st, p), p)
-        self.fs_set(st, q, kind=FILE, text=Val.s(a[0].t))
+        self.fs_set(st, q, kind=FILE, text=vs(a[0].t))
         return R(st)
 
     def m_Path_mkdir(self, st, recv, a, kw, lineno):
-        p = Val.p(recv.t)
+        p = vp(recv.t)
         k = self.fk(st, p)
         exist_ok = kw.get("exist_ok")
         self.fs_effect(st, "mkdir", [recv], lineno)
@@ -133,7 +133,7 @@ class FsMixin:
         return self.split(st, k == ABSENT, create, lambda s: [Res(s, None, "raise", "OSError")])
 
     def m_Path_rename(self, st, recv, a, kw, lineno):
-        p, q = Val.p(recv.t), Val.p(a[0].t)
+        p, q = vp(recv.t), vp(a[0].t)
         k = self.fk(st, p)
 
         def yes(s):
@@ -147,31 +147,31 @@ class FsMixin:
     m_Path_replace = m_Path_rename
 
     def m_Path_symlink_to(self, st, recv, a, kw, lineno):
-        p = Val.p(recv.t)
+        p = vp(recv.t)
         k = self.fk(st, p)
 
         def yes(s):
             self.fs_effect(s, "symlink_to", [recv, a[0]], lineno)
-            self.fs_set(s, p, kind=LINK, target=Val.p(a[0].t))
+            self.fs_set(s, p, kind=LINK, target=vp(a[0].t))
             return R(s)
         return self.split(st, k == ABSENT, yes, lambda s: [Res(s, None, "raise", "OSError")])
 
     def m_Path_relative_to(self, st, recv, a, kw, lineno):
         f = z3.Function("p_relative_to", PathS, PathS, PathS)
-        p, q = Val.p(recv.t), Val.p(a[0].t)
+        p, q = vp(recv.t), vp(a[0].t)
         r = f(p, q)
         st.assume(p_joinp(q, r) == p)
         return R(st, V(Val.PathV(r), "Path"))
 
     def m_Path_glob(self, st, recv, a, kw, lineno):
-        d, pat = Val.p(recv.t), Val.s(a[0].t)
+        d, pat = vp(recv.t), vs(a[0].t)
         res = z3.Const(fresh_name("glob"), SeqV)
         k, k2 = fresh_int("k"), fresh_int("k")
         q = z3.Const(fresh_name("q"), PathS)
         kind = st.field("$fs_kind")
         n = z3.Length(res)
         st.assume(qforall([k], z3.Implies(z3.And(0 <= k, k < n),
-                  z3.And(Val.is_PathV(res[k]), z3.Select(kind, Val.p(res[k])) != ABSENT, glob_match(d, pat, Val.p(res[k])))), patterns=[res[k]]))
+                  z3.And(Val.is_PathV(res[k]), z3.Select(kind, vp(res[k])) != ABSENT, glob_match(d, pat, vp(res[k])))), patterns=[res[k]]))
         st.assume(qforall([k, k2], z3.Implies(z3.And(0 <= k, k < k2, k2 < n), res[k] != res[k2]), patterns=[z3.MultiPattern(res[k], res[k2])]))
         st.assume(qforall([q], z3.Implies(z3.And(z3.Select(kind, q) != ABSENT, glob_match(d, pat, q)),
                   z3.Contains(res, z3.Unit(Val.PathV(q)))), patterns=[glob_match(d, pat, q)]))
@@ -179,17 +179,17 @@ class FsMixin:
         for ax in gax:
             st.assume(ax)
         facts = self.seq_facts.setdefault(res.decl().name(), [])
-        facts.append(lambda j: z3.Implies(z3.And(0 <= j, j < n), z3.And(Val.is_PathV(res[j]), z3.Select(kind, Val.p(res[j])) != ABSENT,
-                                                                    glob_match(d, pat, Val.p(res[j])))))
+        facts.append(lambda j: z3.Implies(z3.And(0 <= j, j < n), z3.And(Val.is_PathV(res[j]), z3.Select(kind, vp(res[j])) != ABSENT,
+                                                                    glob_match(d, pat, vp(res[j])))))
         for ax in gax:      # definition of glob_match for this pattern, at the element
             if z3.is_quantifier(ax):
-                facts.append(lambda j, ax=ax: z3.Implies(z3.And(0 <= j, j < n), z3.substitute_vars(ax.body(), Val.p(res[j]))))
+                facts.append(lambda j, ax=ax: z3.Implies(z3.And(0 <= j, j < n), z3.substitute_vars(ax.body(), vp(res[j]))))
         for h in self.glob_hooks:
             h(self, st, res, d, a[0])
         return R(st, self.new_list(st, res, "list[Path]"))
 
     def glob_axioms(self, d, patv):
-        pat = z3.simplify(Val.s(patv.t))
+        pat = z3.simplify(vs(patv.t))
         q = z3.Const(fresh_name("q"), PathS)
         if not z3.is_string_value(pat):
             return []
@@ -215,7 +215,7 @@ class FsMixin:
         return [qforall([q], gm == z3.And(*conds), patterns=[gm])]
 
     def bi_rmtree(self, st, a, kw, n):
-        p = Val.p(a[0].t)
+        p = vp(a[0].t)
         self.fs_effect(st, "rmtree", [a[0]], n.lineno)
         old = st.field("$fs_kind")
         new = z3.Const(fresh_name("H_$fs_kind"), field_sort("$fs_kind"))
